@@ -54,6 +54,8 @@ const (
 	OwnUndecryptable           // encrypted key of operator 1 is garbage
 	OwnNotHex                  // encrypted key of operator 1 decrypts to a non-hex string
 	OwnMismatch                // encrypted key of operator 1 decrypts to a key that is not the public share
+	ShareLong1                 // share data with one trailing byte too many
+	ShareLong256               // share data with 256 trailing bytes too many
 )
 
 // Event is one letter of the alphabet; it is a *specification*, the log bytes are derived
@@ -109,6 +111,8 @@ func Alphabet() []Event {
 		{Name: "vAdd(V1,A,3ops)", Kind: VAdd, Val: 0, Owner: 0, Ops: []uint64{1, 2, 3}},
 		{Name: "vAdd(V1,A,14ops)", Kind: VAdd, Val: 0, Owner: 0, Ops: ops14},
 		{Name: "vAdd(V1,A,shortShares)", Kind: VAdd, Val: 0, Owner: 0, Ops: c, Share: ShareShort},
+		{Name: "vAdd(V1,A,sharesOneByteTooLong)", Kind: VAdd, Val: 0, Owner: 0, Ops: c, Share: ShareLong1},
+		{Name: "vAdd(V2,A,shares256BytesTooLong)", Kind: VAdd, Val: 1, Owner: 0, Ops: c, Share: ShareLong256},
 		{Name: "vAdd(V1,A,undecryptable)", Kind: VAdd, Val: 0, Owner: 0, Ops: c, Share: OwnUndecryptable},
 		{Name: "vAdd(V1,A,notHex)", Kind: VAdd, Val: 0, Owner: 0, Ops: c, Share: OwnNotHex},
 		{Name: "vAdd(V1,A,keyMismatch)", Kind: VAdd, Val: 0, Owner: 0, Ops: c, Share: OwnMismatch},
@@ -317,6 +321,12 @@ func (fx *Fixture) SharesData(e Event, nonce int) []byte {
 	}
 	if e.Share == ShareShort {
 		out = out[:len(out)-1]
+	}
+	if e.Share == ShareLong1 {
+		out = append(out, 0x5a)
+	}
+	if e.Share == ShareLong256 {
+		out = append(out, make([]byte, 256)...)
 	}
 	return out
 }
